@@ -9,8 +9,10 @@ mod c04s;
 mod c05;
 mod c06;
 mod c07;
+mod c08;
 mod c09;
 mod c10;
+mod c11;
 mod c12;
 mod c13;
 mod c14;
@@ -98,8 +100,10 @@ fn main() {
         "C05" => c05::run(&ctx),
         "C06" => c06::run(&ctx),
         "C07" => c07::run(&ctx),
+        "C08" => c08::run(&ctx),
         "C09" => c09::run(&ctx),
         "C10" => c10::run(&ctx),
+        "C11" => c11::run(&ctx),
         "C12" => c12::run(&ctx),
         "C13" => c13::run(&ctx),
         "C16" => c16::run(&ctx),
